@@ -24,6 +24,11 @@ def cases(tier, seed):
     step = -(-NCODE // n)
     for i in range(n):
         yield dict(mode='single', lo=i * step, hi=min(NCODE, (i + 1) * step))
+    # two concurrent first decodes, every interleaving of their source lines with <= 1 preemption (a decoder that
+    # builds shared state lazily must not let a second caller see it half built)
+    yield dict(mode='threads', bound=1, n=2)
+    if tier != 'quick':
+        yield dict(mode='threads', bound=1, n=3)
     for com in ('com', 'L2com'):
         for rnv in 'rnv':
             yield dict(mode='catalog', cleaned=False, com=com, rnv=rnv)
@@ -95,6 +100,26 @@ def run(case):
     extra = {}
     nt = []
     mode = case['mode']
+    if mode == 'threads':
+        from vf import twin
+        sets = [np.arange(0, NCODE, 997, dtype=np.uint16), np.arange(5, NCODE, 1009, dtype=np.uint16), np.arange(11, NCODE, 1013, dtype=np.uint16)][:case['n']]
+        ref = [tuple(a.copy() for a in chc._unpack_euler16(c.copy())) for c in sets]
+        calls = [(lambda c=c: chc._unpack_euler16(c.copy())) for c in sets]
+        fname = chc.__file__
+        nexec = npts = 0
+        outcomes = set()
+        for choices, pre, res in twin.explore_lines(calls, lambda f: f == fname, case['bound'], modules=[chc], max_exec=20000):
+            if choices == 'CAPPED':
+                extra['threads_capped'] = 1
+                break
+            nexec += 1
+            npts += len(choices)
+            ok = all(r is not None and all(np.array_equal(x, y) for x, y in zip(r, rf)) for r, rf in zip(res, ref))
+            outcomes.add(ok)
+            if not ok and not probs:
+                probs.append(dict(sig='euler16:concurrent-first-calls-differ', msg=f'{case["n"]} concurrent decodes, schedule {choices} ({pre} preemptions): a thread got triads different from the sequential decode'))
+        return dict(problems=probs, nt=[('threads', case['n'], case['bound'])], evals=nexec,
+                    extra=dict(line_schedules_explored=nexec, line_scheduling_points=npts, distinct_thread_outcomes=[str(o) for o in outcomes]))
     if mode in ('batch', 'chunks', 'single'):
         if mode == 'batch':
             mn, md, mj = chc._unpack_euler16(codes.copy())
